@@ -218,11 +218,52 @@ def real_shard(shard, nshards, payload):
     return st
 
 
+def similar_shard(shard, nshards, payload):
+    """the cookie must tell SIMILAR declarations apart: same-named classes whose generated sources differ in a few characters only -
+    two one-byte integers named by every pair of three-letter names over {a, b, c} (thorough: {a, b, c, d}) in both orders, one
+    definition right after the other in one module (one cache file). A weak checksum (sums, xors, a truncated digest) collides on
+    some of them; then the second class runs the first one's code and its two values come out swapped."""
+    import itertools as it
+    from mc import mk
+    st = Stats()
+    letters = 'abc' if payload['tier'] == 'quick' else 'abcd'
+    names = [''.join(t) for t in it.product(letters, repeat=3)]
+    pairs = list(it.combinations(names, 2))
+    chunk = [pr for i, pr in enumerate(pairs) if i % nshards == shard]
+    if not chunk:
+        return st
+    with mk.World() as w:
+        src = ''
+        for i, (x, y) in enumerate(chunk):
+            src += mk.class_src('K', ['%s = Int(1)' % x, '%s = Int(1)' % y]) + 'K__%d_0 = K\n' % i
+            src += mk.class_src('K', ['%s = Int(1)' % y, '%s = Int(1)' % x]) + 'K__%d_1 = K\n' % i
+        m = w.module(src)
+        for i, (x, y) in enumerate(chunk):
+            for j, first in ((0, x), (1, y)):
+                K = getattr(m, 'K__%d_%d' % (i, j))
+                st.inc('definitions')
+                st.inc('histories')
+                try:
+                    p = K.unpack(b'\x01\x02')
+                    got = (getattr(p, first), K(**{first: 7}).pack())
+                except Exception as e:
+                    got = repr(e)
+                if got != (1, b'\x07\x00'):
+                    a, b = (x, y) if j == 0 else (y, x)
+                    st.violate('similar declarations: behaves per another declaration',
+                               'class K(%s = Int(1); %s = Int(1)) defined right after K(%s = Int(1); %s = Int(1)) in one module: unpack(01 02).%s, K(%s=7).pack() -> %r, expected (1, 07 00)' % (
+                                   a, b, b, a, first, first, got), {'similar': [x, y]})
+                    return st
+        st.add('states', ('similar', len(chunk)))
+    return st
+
+
 def run(tier):
     depth = 3 if tier == 'quick' else 4
     st = common.merge_all(common.run_sharded(_shard, {'tier': tier, 'depth': depth, 'replays': 3 if tier == 'quick' else 12}))
     st.merge(common.merge_all(common.run_sharded(_shard, {'tier': tier, 'depth': depth + 1, 'replays': 2, 'big': True})))
     st.merge(common.merge_all(common.run_sharded(real_shard, {'tier': tier})))
+    st.merge(common.merge_all(common.run_sharded(similar_shard, {'tier': tier})))
     if not st.samples:
         st.sample({'history': describe([('define', 'A', 'def'), ('forget',), ('define', 'A2', 'def')])})
     cov = {
@@ -232,7 +273,7 @@ def run(tier):
         'real_process_replays': st.n.get('real_replays', 0), 'definitions_checked': st.n.get('definitions', 0),
         'real_process_histories_with_mixed_optimisation_levels': st.n.get('real_histories', 0), 'real_definitions': st.n.get('real_definitions', 0),
         'rule': 'all histories of length <=%d (also started from a cache directory that earlier processes filled for A resp. A2 with bytecode) ending in a definition over %d operations (define x %d declaration/option pairs incl. two declarations whose '
-                'generated source has the same length, new process, clock tick, bytecode toggle, forget sources), and all histories one longer over two LONG declarations (41 fields, a cache file of more than 8 KiB) that differ in the byte order of their last field, on real files with harness time stamps '
+                'generated source has the same length, new process, clock tick, bytecode toggle, forget sources), and all histories one longer over two LONG declarations (41 fields, a cache file of more than 8 KiB) that differ in the byte order of their last field, on real files with harness time stamps; plus all pairs of declarations that differ only in the ORDER of two three-letter field names over a three-letter alphabet (351 pairs, thorough 2016), defined one right after the other in one module '
                 '(everything within one second unless a tick occurs); every definition and every class still alive in the process checked on a battery '
                 'against its own declaration; transitions = interposed file-system steps; states = distinct final (directory contents+mtimes, clock)' % (
                     depth, len(alphabet(tier)), len(alphabet(tier)) - len(CTRL)),
@@ -245,6 +286,13 @@ def run(tier):
 
 
 def replay(case):
+    if 'similar' in case:
+        from mc import mk
+        x, y = case['similar']
+        with mk.World() as w:
+            m = w.module(mk.class_src('K', ['%s = Int(1)' % x, '%s = Int(1)' % y]) + 'K0 = K\n' + mk.class_src('K', ['%s = Int(1)' % y, '%s = Int(1)' % x]) + 'K1 = K\n')
+            got = (getattr(m.K0.unpack(b'\x01\x02'), x), getattr(m.K1.unpack(b'\x01\x02'), y))
+        return [] if got == (1, 1) else [{'sig': 'similar declarations', 'what': repr(got)}]
     if 'real' in case:
         scratch = common.new_scratch_dir('c15o')
         cache.write_source(scratch)
